@@ -12,6 +12,7 @@ import (
 	"bytes"
 	"context"
 
+	"github.com/gagliardetto/solana-go"
 	"github.com/rpcpool/yellowstone-faithful/radiance/genesis"
 	old_faithful_grpc "github.com/rpcpool/yellowstone-faithful/old-faithful-proto/old-faithful-grpc"
 )
@@ -51,7 +52,9 @@ func verifC02BuildBlock(a *verifC02Archive, b *verifC02Block, shape []int, hasPo
 					verifAssume(o.pos != t.pos) // positions within a block are distinct
 				}
 			}
-			t.data = a.payload("txData", nData, (plan+k)%verifC02NumLayouts, withHash)
+			// concrete, pairwise distinct signatures (the block handlers do not look at them)
+			t.sig = solana.Signature{0: 0xB1, 1: byte(a.num), 2: byte(len(a.nodes)), 63: 0x7E}
+			t.data = a.txDataPayload(t.sig, "txData", nData, (plan+k)%verifC02NumLayouts, withHash)
 			t.meta = a.payload("txMeta", nMeta, (plan+k+2)%verifC02NumLayouts, withHash)
 			a.addTx(t)
 			en.txs = append(en.txs, t)
